@@ -1,15 +1,19 @@
 package verifsim
 
 import (
+	"bytes"
 	"crypto/sha256"
 	"encoding/hex"
 	"encoding/json"
 	"flag"
+	"log"
 	"fmt"
 	"net/http"
 	"os"
 	"sort"
 	"strconv"
+	"strings"
+	"sync"
 	"syscall"
 	"testing"
 	"testing/cryptotest"
@@ -151,6 +155,8 @@ func TestSim(t *testing.T) {
 			net := NewNet(s)
 			disk := NewDisk(s, root)
 			h := &Harness{T: t, S: s, Net: net, Disk: disk, Tape: tape, R: res, Root: ".", Tier: tier, Idx: idx}
+			sniff := &panicSniffer{}
+			log.SetOutput(sniff)
 			verifhook.Impl = &hookImpl{s, disk}
 			http.DefaultTransport = net
 			func() {
@@ -165,6 +171,10 @@ func TestSim(t *testing.T) {
 				}()
 				p.Run(h)
 			}()
+			// panics that the code under test recovered itself (the updater goroutine logs "[PANIC]" and ends)
+			for _, p := range sniff.get() {
+				h.Violation("engine.panic", "recovered:"+topRepoFrame(afterPanicFrame(p)), "a panic was recovered and logged by the code under test (the goroutine that recovered it has ended): %s", p)
+			}
 			res.Steps, res.Switches, res.SimNS = s.steps, s.switches, int64(s.Now())
 			res.SchedFP = fmt.Sprintf("%016x", s.fp)
 			for k, v := range s.stats {
@@ -212,6 +222,41 @@ func scratchBase() string {
 		return b
 	}
 	return "/dev/shm"
+}
+
+type panicSniffer struct {
+	mu   sync.Mutex
+	hits []string
+}
+
+func (p *panicSniffer) Write(b []byte) (int, error) {
+	if bytes.Contains(b, []byte("[PANIC]")) {
+		p.mu.Lock()
+		if len(p.hits) < 4 {
+			s := string(b)
+			if len(s) > 3000 {
+				s = s[:3000]
+			}
+			p.hits = append(p.hits, s)
+		}
+		p.mu.Unlock()
+	}
+	return len(b), nil
+}
+
+func (p *panicSniffer) get() []string {
+	p.mu.Lock()
+	defer p.mu.Unlock()
+	return append([]string(nil), p.hits...)
+}
+
+// afterPanicFrame cuts a logged stack down to the part below the runtime's panic frame.
+func afterPanicFrame(s string) string {
+	s = strings.ReplaceAll(s, "\\n", "\n")
+	if i := strings.Index(s, "\npanic("); i >= 0 {
+		return s[i:]
+	}
+	return s
 }
 
 type hookImpl struct {
